@@ -1,6 +1,6 @@
 (* C10 -- comparison operators.  Theorem statements only; proofs in Cmp.v. *)
 From Coq Require Import String ZArith Bool Arith List.
-From SV Require Import Names NamesFacts ListFacts Rep Fresh Complex Atomic RepInv Cmp.
+From SV Require Import Names NamesFacts ListFacts Rep Fresh Complex Atomic RepInv Cmp Shapes CopyFaithful.
 Import ListNotations.
 
 (* a <= b exactly when every simplex listed in a occurs in b with the same order and with its
@@ -39,3 +39,11 @@ Example C10_lone_points :
   let b := fst (addSimplex (empty_rep 2) [] (Some (NInt 2)) None) in
   c_eq a b = false /\ c_le a b = false /\ c_eq a a = true.
 Proof. vm_compute. repeat split. Qed.
+
+(* every copy equals its source (for a source whose simplices of order k list k+1 faces, none for
+   points -- C01's well-formedness) *)
+Theorem C10_copy_equals_source :
+  forall hp a uid hp' c, pinv a -> face_counts a ->
+  copy_new hp (view_of a) uid = (hp', c, Ok tt) -> c_eq a c = true.
+Proof. exact copy_equals_source. Qed.
+Print Assumptions C10_copy_equals_source.
